@@ -920,6 +920,11 @@ def run_C15(ctx):
             progs["shadow"] = "let v = zz.zz\nrule r {\nlet v = %s\n%s\n}\n" % (q, clause("%v"))
             progs["when-let"] = "rule r {\nwhen this exists {\nlet v = %s\n%s\n}\n}\n" % (q, clause("%v"))
             progs["param"] = "rule f(p) {\n%s\n}\nrule r {\nf(%s)\n}\n" % (clause("%p"), q)
+        if skip_empty_exception and not q.endswith("]"):
+            # the documented exception is the BARE variable only: `%v[*] empty` is the clause `q[*] empty`
+            progs["star-inline"] = "rule r {\n%s\n}\n" % clause(q + "[*]")
+            progs["star-let"] = "let v = %s\nrule r {\n%s\n}\n" % (q, clause("%v[*]"))
+            progs["star-rule-let"] = "rule r {\nlet v = %s\n%s\n}\n" % (q, clause("%v[*]"))
         progs["unused"] = "let u = zz[ q == 1 ].w\nlet u2 = parse_int(\"x\")\nrule r {\nlet u3 = join(zz, \",\")\n%s\n}\n" % clause(q)
         # prefix abstraction: split the query at a '.' boundary outside brackets
         depth, cut = 0, None
@@ -951,10 +956,13 @@ def run_C15(ctx):
         if not skip_empty_exception:
             progs["block-inline"] = "rule r {\nctx {\n%s\n}\n}\n" % clause(q)
             progs["block-let"] = "rule r {\nctx {\nlet v = %s\n%s\n}\n}\n" % (q, clause("%v"))
+        # the block cases run on a document whose ROOT does not have the keys of `ctx`: a block-level variable is evaluated
+        # against the block's current value, not against the enclosing scope's
+        data_block = json.dumps({"ctx": d, "decoy": {"ctx": 1}})
         idx = {}
         for k, t in progs.items():
             idx[k] = len(cases)
-            cases.append({"rules": t, "data": data})
+            cases.append({"rules": t, "data": data_block if k.startswith("block-") else data})
         groups.append((idx, q, op, rhs))
     results = vlib.correspond(cases, ctx.hp, ctx.mp)
     absorb(res, results, "C15 abstraction sites")
@@ -976,8 +984,15 @@ def run_C15(ctx):
                 res.judge_failures.append({"what": "an earlier reference to a variable changes what a later reference sees: rule r is %s alone and %s after another reference" % (st(a_), st(b_)),
                                            "class": "c15-same-value", "rules": results[idx[b_]]["case"]["rules"],
                                            "base_rules": results[idx[a_]]["case"]["rules"], "data": results[idx[b_]]["case"]["data"]})
+        for k in ("star-let", "star-rule-let"):
+            if k in idx and not str(st("star-inline")).startswith("ERR"):
+                res.stats["c15-site:" + k] += 1
+                if st(k) != st("star-inline"):
+                    res.judge_failures.append({"what": "`%%v[*] %s` is %s but `%s[*] %s` in place is %s (only the bare variable tests the result set)" % (op, st(k), q, op, st("star-inline")),
+                                               "class": "c15-" + k, "rules": results[idx[k]]["case"]["rules"],
+                                               "base_rules": results[idx["star-inline"]]["case"]["rules"], "data": results[idx[k]]["case"]["data"]})
         for k in idx:
-            if k in ("inline", "block-inline", "block-let") or k.startswith(("some-ref", "all-ref")):
+            if k in ("inline", "block-inline", "block-let") or k.startswith(("some-ref", "all-ref", "star-")):
                 continue
             res.stats["c15-site:" + k] += 1
             if st(k) != base:
@@ -1251,17 +1266,20 @@ def run_C06_test(ctx, res, rng):
             for j in range(len(fz[2]) if fz else rng.choice([1, 2, 3])):
                 rk = fz[2][j] if fz else rng.choice(["ok", "ok", "bad", "empty", "dup"])
                 kinds = fz[3][j] if fz else [rng.choice(["match", "match", "mismatch", "unparsable"]) for _ in range(rng.choice([1, 2]))]
-                files["f%d.guard" % j] = TEST_RULES[rk]
+                # every third scenario: each rules file in a directory of its own (several directories are walked)
+                sub = "p%d/" % j if i % 3 == 1 else ""
+                files[sub + "f%d.guard" % j] = TEST_RULES[rk]
                 tfs = []
                 for k, kind in enumerate(kinds):
                     txt, mism = test_file_text(rng, kind, rk)
-                    files["tests/f%d_%d.yaml" % (j, k)] = txt
+                    files[sub + "tests/f%d_%d.yaml" % (j, k)] = txt
                     tfs.append({"k": "unparsable"} if mism is None else {"k": "specs", "mismatch": mism})
                 rks.append(rk)
                 allk.append(kinds)
                 mrules.append({"k": "ok" if rk == "dup" else rk, "files": tfs})
             model = {"cmd": "test-dir-plain" if fmt == "plain" else "test-dir-structured", "rules": mrules}
-            jobs.append({"argv": ["test", "-d", "{DIR}"] + oargs, "files": files})
+            # every other scenario names the directory relatively (`--dir .`, the job runs inside it)
+            jobs.append({"argv": ["test", "-d", "." if i % 2 == 1 else "{DIR}"] + oargs, "files": files})
             meta.append((layout, fmt, rks, allk, model))
     outs = vlib.run_cli_many(jobs)
     mresp = ctx.mp.map([dict(m[4], id=i, op="exit") for i, m in enumerate(meta)])
@@ -1425,7 +1443,16 @@ def run_C09(ctx):
                          "rule zz%d_neg_named {\nnot zz%d_pass\n}\nrule zz%d_neg_call {\nnot zz%d_p(this)\n}\n"
                          "rule zz%d_ref_fail {\nzz%d_fail\n}\nrule zz%d_neg_fail {\nnot zz%d_fail\nnot zz%d_skip\n}\n"
                          "rule zz%d_ref_skip {\nzz%d_skip\n}\nrule zz%d_call {\nzz%d_p(this) <<call msg>>\n}\n") % ((k,) * 17)
+        if i % 4 == 1:
+            # clauses with a custom message over SEVERAL values (every failing value must carry the clause's message)
+            k = rng.randrange(len(progs))
+            d["zmsg"] = [{"n": "a", "v": 1}, {"v": 2}, {"n": 3}, {"w": 4}]
+            progs[k] += ("rule zm%d_unary {\nzmsg[*].n exists <<every entry needs n>>\nzmsg[*].n is_string <<n is text>>\n}\n"
+                         "rule zm%d_binary {\nzmsg[*].v == 1 <<v must be one>>\nsome zmsg[*].w > 9 <<no big w>>\n}\n") % (k, k)
         runs.append((progs, json.dumps(d)))
+    # the record trees themselves (checks, values, messages) against the model: the report is derived from them
+    ccases = [{"rules": txt, "data": data} for files, data in runs[: (2000 if ctx.thorough() else 250)] for txt in files]
+    absorb(res, vlib.correspond(ccases, ctx.hp, ctx.mp, detail=True), "C09 record trees")
     # per rules file: tree (verbose) and report (library)
     reqs, owner = [], []
     for ri, (files, data) in enumerate(runs):
@@ -1451,11 +1478,13 @@ def run_C09(ctx):
     jobs, jidx = [], []
     for ri, (files, data) in enumerate(runs):
         if ri in mresp:
-            fl = {"r%d.guard" % k: t for k, t in enumerate(files)}
+            # every other run: the rules files share one base name in different directories (team-a/policy.guard ..)
+            rname = (lambda k: "r%d.guard" % k) if ri % 2 == 0 else (lambda k: "team%d/policy.guard" % k)
+            fl = {rname(k): t for k, t in enumerate(files)}
             fl["d.json"] = data
             argv = ["validate", "--structured", "-o", "json", "-S", "none", "-d", "{DIR}/d.json"]
             for k in range(len(files)):
-                argv += ["-r", "{DIR}/r%d.guard" % k]
+                argv += ["-r", "{DIR}/" + rname(k)]
             jobs.append({"argv": argv, "files": fl})
             jidx.append(ri)
     outs = dict(zip(jidx, vlib.run_cli_many(jobs)))
@@ -1594,6 +1623,9 @@ def run_C17(ctx):
         if overlap:
             dup = rng.choice(list(data.keys()) + [kk for p in params[1:] for kk in p] or list(data.keys()))
             params[0][dup] = 1
+            if i % 2 == 1:
+                # the SAME value under the same key in two sources is a conflict too (no silent de-duplication)
+                params[0][dup] = json.loads(json.dumps(doc[dup]))
             if rng.random() < 0.5:
                 # the same key holding a STRUCT in both sources is a conflict like any other
                 params[0][dup] = {"m1": 1, "shared": {"a": 1}}
@@ -1652,6 +1684,22 @@ def run_C17(ctx):
             jobs.append({"argv": ["validate", "-r", "{DIR}/r.guard", "-d", "{DIR}/m.json", "-d", "{DIR}/m2.json"] + sf, "files": files})
         meta.append({"base": base, "perms": perm_idx, "overlap": bool(overlap), "structured": structured, "rules": rules,
                      "params": params, "data": data, "merged": merged, "two": two})
+    # parameter files are documents like the data files: scalars that only some YAML readers type (True, 0x1F90, ~, yes,
+    # 1_000, 1e3) must mean the same through `-i` as in the pre-merged document written with the SAME spelling
+    odd = []
+    ODD = [("flag", "True"), ("port", "0x1F90"), ("nothing", "~"), ("agree", "yes"), ("big", "1_000"), ("sci", "1e3"), ("oct", "0o17"),
+           ("nul", "Null"), ("off_", "off"), ("ver", "1.10"), ("plus", "+5")]
+    odd_rules = "".join("rule %s_%s {\n%s %s\n}\n" % (k_, t_, k_, t_) for k_, _ in ODD for t_ in ("is_string", "is_int", "is_bool", "is_float", "is_null"))
+    for k in range(4):
+        sel = rng.sample(ODD, 5)
+        ptxt = "".join("%s: %s\n" % kv for kv in sel)
+        dtxt = "base: 1\n"
+        for structured in (False, True):
+            flags = ["--structured", "-o", "json", "-S", "none"] if structured else ["-S", "all"]
+            fl = {"r.guard": odd_rules, "d.yaml": dtxt, "p.yaml": ptxt, "m.yaml": dtxt + ptxt}
+            odd.append((len(jobs), structured, ptxt))
+            jobs.append({"argv": ["validate", "-r", "{DIR}/r.guard", "-d", "{DIR}/d.yaml", "-i", "{DIR}/p.yaml"] + flags, "files": fl})
+            jobs.append({"argv": ["validate", "-r", "{DIR}/r.guard", "-d", "{DIR}/m.yaml"] + flags, "files": fl})
     outs = vlib.run_cli_many(jobs)
     # model: merge + evaluate
     creqs = [{"id": i, "op": "case", "rules": m["rules"], "data": json.dumps(m["data"]), "loader": "libyaml", "verbose": False} for i, m in enumerate(meta)]
@@ -1695,6 +1743,15 @@ def run_C17(ctx):
             st[mm.group(1)] = mm.group(2)
         return ("ok", o["code"], st, None)
 
+    for (j0, structured, ptxt) in odd:
+        res.evaluations += 1
+        a, b = verdict(outs[j0], structured), verdict(outs[j0 + 1], structured)
+        res.stats["c17-odd-scalars:%s" % a[0]] += 1
+        if a[:3] != b[:3]:
+            both = a[0] == "ok" and b[0] == "ok" and isinstance(a[2], dict) and isinstance(b[2], dict)
+            diff = {k_: (a[2].get(k_), b[2].get(k_)) for k_ in (a[2] if both else {}) if a[2].get(k_) != b[2].get(k_)}
+            res.judge_failures.append({"what": "a parameter file is typed differently from the same text inside the document: %s" % (diff or (a[:2], b[:2])),
+                                       "class": "c17-param-typing", "params": ptxt, "argv": jobs[j0]["argv"], "files": jobs[j0]["files"]})
     for i, m in enumerate(meta):
         res.evaluations += 1
         a = verdict(outs[m["base"]], m["structured"])
@@ -2002,6 +2059,10 @@ def run_C12(ctx):
             if rng.random() < 0.6:
                 txt += CAPTURE_RULE
             rfiles.append(txt)
+        if i % 4 == 2 and nr < 3:
+            # a rules file without any rule (comments only), in front of the others
+            rfiles.insert(0, "# nothing here yet\n\n")
+            nr += 1
         files = {}
         for k, t in enumerate(rfiles):
             files["rd/r%d.guard" % k] = t
@@ -2039,12 +2100,23 @@ def run_C12(ctx):
             s["samebase_ref"] = add({"argv": ["validate"] + rargs([0, 1]) + dargs(range(ndocs)) + sflags, "files": files})
         s["payload"] = add({"argv": ["validate", "--payload"] + sflags, "files": {},
                             "stdin": json.dumps({"rules": rfiles, "data": [json.dumps(d) for d in docs]})})
+        if ndocs >= 2 and not any("zparam" in d for d in docs):
+            # input parameters: every data file of the batch is evaluated with them, like each one alone
+            fp = dict(files)
+            fp["p.json"] = json.dumps({"zparam": 5})
+            fp["pr.guard"] = "rule zparam_rule {\nzparam == 5\n}\nrule zm {\nm.a.x == 1\n}\n"
+            pfl = ["-i", "{DIR}/p.json", "--structured", "-o", "json", "-S", "none"]
+            s["batch_i"] = add({"argv": ["validate", "-r", "{DIR}/pr.guard"] + dargs(range(ndocs)) + pfl, "files": fp})
+            s["single_i"] = [add({"argv": ["validate", "-r", "{DIR}/pr.guard"] + dargs([b]) + pfl, "files": fp}) for b in range(ndocs)]
         if ndocs >= 2:
             # SARIF and JUnit renderings of the batch vs each data file validated alone (all rules files)
             for fmt in ("sarif", "junit"):
                 fl = ["--structured", "-o", fmt, "-S", "none"]
                 s["batch_" + fmt] = add({"argv": ["validate"] + rargs(range(nr)) + dargs(range(ndocs)) + fl, "files": files})
                 s["single_" + fmt] = [add({"argv": ["validate"] + rargs(range(nr)) + dargs([b]) + fl, "files": files}) for b in range(ndocs)]
+            if nr >= 2:
+                fl = ["--structured", "-o", "junit", "-S", "none"]
+                s["rsingle_junit"] = [add({"argv": ["validate"] + rargs([a]) + dargs(range(ndocs)) + fl, "files": files}) for a in range(nr)]
         scen.append(s)
     outs = vlib.run_cli_many(jobs)
 
@@ -2155,6 +2227,38 @@ def run_C12(ctx):
                     if bf.get(name) != sf.get(name):
                         res.judge_failures.append(dict(info, what="%s: the batch reports %s for %s, the file validated alone gives %s" % (
                             fmt, str(bf.get(name))[:300], name, str(sf.get(name))[:300]), **{"class": "c12-" + fmt}))
+                        break
+        if "batch_i" in s:
+            bi_ = reports(outs[s["batch_i"]])
+            si_ = [reports(outs[j]) for j in s["single_i"]]
+            if bi_ is not None and all(x is not None for x in si_):
+                res.stats["c12-params-compared"] += 1
+                for b, x in enumerate(si_):
+                    name = "d%d.json" % b
+                    if bi_.get(name) != x.get(name):
+                        res.judge_failures.append(dict(info, what="with input parameters the batch reports %s for %s, the file alone gives %s" % (
+                            str(bi_.get(name))[:300], name, str(x.get(name))[:300]), **{"class": "c12-params"}))
+                        break
+        # JUnit names every test case after its rules file: the batch must attribute to each rules file what a run with
+        # that rules file alone reports
+        if "rsingle_junit" in s and "batch_junit" in s:
+            bo = outs[s["batch_junit"]]
+            ro_ = [outs[j] for j in s["rsingle_junit"]]
+            if bo["code"] in (0, 19) and all(o_["code"] in (0, 19) for o_ in ro_):
+                bf = junit_by_file(bo)
+                res.stats["c12-junit-by-rules-compared"] += 1
+                for a, o_ in enumerate(ro_):
+                    sf = junit_by_file(o_)
+                    if bf is None or sf is None:
+                        break
+                    bad_ = None
+                    for dname, (_, cases_) in sf.items():
+                        bcases = dict((c_[0], c_) for c_ in (bf.get(dname) or ([], []))[1])
+                        for c_ in cases_:
+                            if bcases.get(c_[0]) != c_:
+                                bad_ = "junit: rules file %s alone gives %s for %s, the batch has %s" % (c_[0], c_, dname, bcases.get(c_[0]))
+                    if bad_:
+                        res.judge_failures.append(dict(info, what=bad_, **{"class": "c12-junit-rules"}))
                         break
         # failure iff some pair fails
         any_fail = any(c == 19 for c in single_codes.values())
@@ -2341,7 +2445,16 @@ def run_C07(ctx):
         # a number in exponent notation (valid JSON, typed by every loader) and two rules that depend on its type
         d["xf"] = "@@XF@@"
         rules += "rule xf_is_float { xf is_float }\nrule xf_cmp { xf > 0.25 }\n"
-        data = json.dumps(d).replace('"@@XF@@"', g.ch(["1e3", "5E-1", "1e-05", "2.5e+2", "1E2", "7e0"]))
+        xf = g.ch(["1e3", "5E-1", "1e-05", "2.5e+2", "1E2", "7e0"])
+        data = json.dumps(d).replace('"@@XF@@"', xf)
+        if i % 2 == 1:
+            # the same document as FLOW YAML (it starts with `{` like JSON does): every entry point must read it alike
+            try:
+                yt = _yaml.safe_dump(d, default_flow_style=True, width=10 ** 6, allow_unicode=True)
+                if _yaml.safe_load(yt) == d:
+                    data = yt.replace("'@@XF@@'", xf).replace('"@@XF@@"', xf).replace("@@XF@@", xf)
+            except Exception:
+                pass
         files = {"r.guard": rules, "d.json": data}
         base = ["validate", "-r", "{DIR}/r.guard", "-d", "{DIR}/d.json"]
         row = {"rules": rules, "data": data, "v": {}}
@@ -3073,6 +3186,9 @@ def respell(rng, text, cls):
                 t2 = _re.sub(r"(?<![\w%.\"'\]|-])(" + "|".join(a + "|" + b for a, b in KW_PAIRS) + r")(?![\w(:|-])", sw, t)
             elif cls == "or-forms":
                 t2 = _re.sub(r" (or|OR|\|OR\|) ", lambda m: " " + rng.choice(["or", "OR", "|OR|"]) + " ", t)
+            elif cls == "or-newline":
+                # a disjunction continued on the next line, with or without a comment at the end of the first line
+                t2 = _re.sub(r" (or|OR|\|OR\|) ", lambda m: rng.choice(["\n  ", "  # why\n", "\n\n ", " #c\n   #d\n "]) + m.group(1) + " ", t)
             elif cls == "not-forms":
                 t2 = _re.sub(r"(?<![\w.])(not |NOT |!)(?=[A-Za-z%\"'])", lambda m: rng.choice(["not ", "NOT ", "!"]), t)
             elif cls == "assign":
@@ -3123,7 +3239,7 @@ def run_C14(ctx):
                  "that differs textually from its base")
     rng = random.Random(ctx.seed)
     n = 3000 if ctx.thorough() else 300
-    classes = ["keyword-case", "or-forms", "not-forms", "assign", "quotes", "index-form", "layout", "comments"]
+    classes = ["keyword-case", "or-forms", "or-newline", "not-forms", "assign", "quotes", "index-form", "layout", "comments"]
     cases, groups = [], []
     for i in range(n):
         g = gen.G(ctx.seed * 2900017 + i)
@@ -3559,13 +3675,21 @@ def c05_scenarios(ctx, n):
             files = {"x.guard": rules, "x_tests.json": json.dumps(specs),
                      "d/y.guard": rules, "d/tests/y_tests.json": json.dumps(specs), "d/z.guard": rules,
                      "d/tests/z_tests.json": json.dumps(specs[:1])}
+            # several directories, one of them with a malformed test file (the walk order decides which exit code wins)
+            for k_, dn in enumerate(["alpha", "beta", "gamma", "delta", "eps"]):
+                files["m/%s/c%d.guard" % (dn, k_)] = rules
+                files["m/%s/tests/c%d_tests.json" % (dn, k_)] = json.dumps(specs[: 1 + k_ % 2]) if k_ != 3 else "- name: [unclosed\n  input: {"
+
             base = ["test", "-r", "{DIR}/x.guard", "-t", "{DIR}/x_tests.json"]
             modes = [("plain", "plain", base), ("verbose", "plain", base + ["-v"]),
                      ("json", "bytes", base + ["-o", "json"]), ("yaml", "bytes", base + ["-o", "yaml"]),
                      ("junit", "junit", base + ["-o", "junit"]),
                      ("dir-plain", "plain", ["test", "-d", "{DIR}/d", "-a"]),
                      ("dir-json", "bytes", ["test", "-d", "{DIR}/d", "-a", "-o", "json"]),
-                     ("dir-junit", "junit", ["test", "-d", "{DIR}/d", "-a", "-o", "junit"])]
+                     ("dir-junit", "junit", ["test", "-d", "{DIR}/d", "-a", "-o", "junit"]),
+                     ("mdir-plain", "plain", ["test", "-d", "{DIR}/m", "-a"]),
+                     ("mdir-json", "bytes", ["test", "-d", "{DIR}/m", "-a", "-o", "json"]),
+                     ("mdir-junit", "junit", ["test", "-d", "{DIR}/m", "-a", "-o", "junit"])]
             out.append({"kind": kind, "files": files, "modes": modes, "rules": rules, "data": json.dumps(specs)})
         elif kind == "parse-tree":
             doc = g.doc()
@@ -3594,6 +3718,20 @@ def c05_scenarios(ctx, n):
                  ("plain-rev", "plain", ["validate", "-r", "{DIR}/r.guard"] + bw + ["-S", "all"]),
                  ("s-json", "bytes", ["validate", "-r", "{DIR}/r.guard"] + fw + ["--structured", "-o", "json", "-S", "none"])]
         out.append({"kind": "validate", "files": files, "modes": modes, "rules": dep_rules, "data": json.dumps([dep_docs[k] for k in order])})
+    # query == query with several differing values on both sides: the failing checks are listed in a fixed order
+    qq_rules = ("rule qq {\nallowed[*] == configured[*]\n}\nrule qn {\nallowed[*] != configured[*]\n}\nrule qi {\nallowed[*] in configured[*]\n}\n"
+                "rule qm {\nm.*.tags[*] == m.*.want[*]\n}\n")
+    qq_doc = {"allowed": [1, 2, 3, 4, 5, 6, 7, 8], "configured": [9, 10, 11, 12, 13, 14, 2],
+              "m": {"a": {"tags": ["t1", "t2", "t3", "t4"], "want": ["w1", "w2", "w3"]}, "b": {"tags": ["u1", "u2"], "want": ["u1", "x", "y", "z"]}}}
+    base = ["validate", "-r", "{DIR}/r.guard", "-d", "{DIR}/t.json"]
+    out.append({"kind": "validate", "files": {"r.guard": qq_rules, "t.json": json.dumps(qq_doc)},
+                "modes": [("plain", "plain", base + ["-S", "all"]), ("verbose", "plain", base + ["-S", "all", "-v"]),
+                          ("s-json", "bytes", base + ["--structured", "-o", "json", "-S", "none"]),
+                          ("s-yaml", "bytes", base + ["--structured", "-o", "yaml", "-S", "none"]),
+                          ("s-sarif", "bytes", base + ["--structured", "-o", "sarif", "-S", "none"]),
+                          ("s-junit", "junit", base + ["--structured", "-o", "junit", "-S", "none"]),
+                          ("print-json", "plain", base + ["-S", "all", "-p"])],
+                "rules": qq_rules, "data": json.dumps(qq_doc)})
     # error paths print too: a reference to a rule / parameterised rule that does not exist (the message lists the
     # known names), an unknown variable, a type error - stderr must be the same in every run
     for k, rules in enumerate([
@@ -4208,7 +4346,12 @@ def run_C10(ctx):
             continue
         if i % 2 == 0:
             doc["zl"] = [g.ch([1, 2, 10, "a", "b", "x y"]) for _ in range(g.ch([2, 3, 4]))]
+        if i % 3 == 1:
+            # multi-line strings (block scalars in the block layout): the reported value is the text with its line breaks
+            doc["znotes"] = {"text": g.ch(["line one\nline two\n", "a\nb", "one\n", "x: y\n# not a comment\n"]), "n": 1}
         rules = g.rules_file(doc, depth=2, cfn=cfn)
+        if "znotes" in doc:
+            rules += "rule ztext {\nznotes.text == \"never-equal-zz\"\nznotes.text.zzmissing exists\n}\n"
         if any(_re.search(r"\b%s\s*\(" % f, rules) for f in C10_FUNCS):
             rules = "\n".join(l for l in rules.split("\n") if not any(_re.search(r"\b%s\s*\(" % f, l) for f in C10_FUNCS)) + "\n"
         # directed clauses: a file-level variable over the first key, and a list-valued key tested with `in`
